@@ -126,6 +126,16 @@ impl Decodable for StreamedPSBT {
                         input.witness_utxo = Some(output.clone());
                     }
                 } else {
+                    // Without the previous transaction the value in `witness_utxo` cannot be verified.
+                    // That is acceptable for segwit inputs (the signature commits to the amount), but a
+                    // legacy p2pkh signature does not: an understated value would hide fees.
+                    if let Some(ref txo) = input.witness_utxo {
+                        if txo.script_pubkey.is_p2pkh() {
+                            return Err(encode::Error::ParseFailed(
+                                "legacy input needs non_witness_utxo",
+                            ));
+                        }
+                    }
                     segwit_flags.push(false);
                 }
 
